@@ -26,11 +26,11 @@ def mc_cfg(**kw):
 def mc_runs(quick):
     if quick:
         return [
-            ("all modes, 6 servers, <= 2 shares", dict(NumServers=6, CellNames='{"1i", "2i", "2p"}')),
+            ("all modes, 6 servers, <= 2 shares", dict(NumServers=6)),
             ("failing servers, private key; 1-of-2", dict(K=1, N=2, NumServers=4, CellNames='{"1i", "2p", "1k"}', MaxFail=1,
                                                          ModeSet='{"WRITE", "REPAIR", "READ"}', PrivChoices="{FALSE, TRUE}")),
-            ("update of an older map (stale entry, bad mark); 1-of-2", dict(K=1, N=2, NumServers=4, ModeSet='{"WRITE", "ANYTHING"}',
-                                                                             Prior='"map"')),
+            ("update of an older map (stale entry, bad mark); 1-of-2", dict(K=1, N=2, NumServers=4, NV=1, CellNames='{"1i"}',
+                                                                             ModeSet='{"WRITE", "READ"}', Prior='"map"')),
         ]
     return [
         ("READ / ANYTHING / CHECK, 5 servers, <= 3 shares, one failing server",
